@@ -25,18 +25,35 @@ Proof.
 Qed.
 Print Assumptions C05_original_scan_empty_nodeset_refuted.
 
-(** ** Multi-node form under concurrency (ChainProofs): see Properties_C06.C06_chain_phantom_free -- when every
-    recorded (node, version) pair is still current, the scan's result is exactly the set of keys of the
-    interval that exist at that instant, along the whole leaf chain and under splits and unlinks. *)
+(** ** Multi-node form under concurrency (ChainProofs): along the whole leaf chain, under inserts, removes,
+    splits and unlinks in any interleaving.  A remove does not change the version word of its border (in the code
+    and in the model), so unchanged versions exclude undetected INSERTS, not removes: every key of the interval
+    that exists now is in the result; the result is exact when no remove happened since the invocation. *)
 From Yk Require Import ChainDefs ChainProofs.
-Theorem C05_chain_unchanged_versions_exact_result : forall kss evs s,
-  kss_ok kss = true -> crun true (cinit kss) evs = Some s ->
-  sc_pc (c_scan s) = CDone ->
-  (forall id v, In (id, v) (sc_nvset (c_scan s)) ->
-     exists n, find_node id (c_nodes s) = Some n /\ cn_ver n = v) ->
+Theorem C05_chain_no_undetected_insert : forall kss evs s k,
+  kss_ok kss = true -> crun true (cinit kss) evs = Some s -> sc_pc (c_scan s) = CDone ->
+  (forall id v, In (id, v) (sc_nvset (c_scan s)) -> exists n, find_node id (c_nodes s) = Some n /\ cn_ver n = v) ->
+  In k (all_keys (c_nodes s)) -> in_interval (sc_l (c_scan s)) (sc_r (c_scan s)) k = true ->
+  In k (sc_res (c_scan s)).
+Proof. exact chain_scan_no_phantom_insert. Qed.
+Print Assumptions C05_chain_no_undetected_insert.
+
+Theorem C05_chain_unchanged_versions_exact_result_no_removes : forall kss evs s,
+  kss_ok kss = true -> crun true (cinit kss) evs = Some s -> sc_pc (c_scan s) = CDone ->
+  (forall k, ~ In (ERem k) evs) ->
+  (forall id v, In (id, v) (sc_nvset (c_scan s)) -> exists n, find_node id (c_nodes s) = Some n /\ cn_ver n = v) ->
   sc_res (c_scan s) = filter (in_interval (sc_l (c_scan s)) (sc_r (c_scan s))) (all_keys (c_nodes s)).
-Proof. exact chain_scan_phantom_free. Qed.
-Print Assumptions C05_chain_unchanged_versions_exact_result.
+Proof. exact chain_scan_phantom_free_no_removes. Qed.
+Print Assumptions C05_chain_unchanged_versions_exact_result_no_removes.
+
+(** with removes the exact form is false: the model (and the code) cannot see a remove through the versions *)
+Theorem C05_chain_exact_with_remove_refuted : exists evs s, crun true (cinit [[10]; [20; 30]]) evs = Some s /\
+  sc_pc (c_scan s) = CDone /\
+  (forall id v, In (id, v) (sc_nvset (c_scan s)) -> exists n, find_node id (c_nodes s) = Some n /\ cn_ver n = v) /\
+  sc_res (c_scan s) = [10; 20; 30] /\ all_keys (c_nodes s) = [10; 30] /\
+  sc_res (c_scan s) <> filter (in_interval (sc_l (c_scan s)) (sc_r (c_scan s))) (all_keys (c_nodes s)).
+Proof. exact chain_phantom_free_with_remove_refuted. Qed.
+Print Assumptions C05_chain_exact_with_remove_refuted.
 
 (** ** Store level, sequential form (PhantomProofs): any number of layers, any max_size, both directions.
     If a scan collected the node-version set and afterwards an ABSENT key of the range the scan covered is
